@@ -1,5 +1,5 @@
 //@unit sim
-//@props C01,C06,C07,C08,C09,C10,C11,C18
+//@props C01,C06,C07,C08,C09,C10,C11,C16,C18
 //@verus --rlimit 150 --triggers-mode silent
 // Unit sim: the sequential kernel of nexosim/src/simulation.rs.
 //   Simulation::{time, step, step_until, process, run (+ lifted closure), step_to_next_bounded
@@ -1198,7 +1198,7 @@ impl Simulation {
 }
 
 impl SimInit {
-//@item src=nexosim/src/simulation/sim_init.rs kind=fn name=init within=`impl SimInit` id=SimInit::init rules=SCHEDNEW,TIMEWRITEMUT,RET,MUTSELFP props=C18,C01,C11
+//@item src=nexosim/src/simulation/sim_init.rs kind=fn name=init within=`impl SimInit` id=SimInit::init rules=SCHEDNEW,TIMEWRITEMUT,RET,MUTSELFP props=C18,C01,C11,C16
     pub fn init(
         self,
         start_time: MonotonicTime,
@@ -1214,6 +1214,9 @@ impl SimInit {
             res matches Ok((sim, _s)) ==> sim.clock.syncs() == self.clock.syncs().push(start_time.t)     //@ C18 #init-synchronizes-once-on-the-start-time
                 && sim.executor.runs() == self.executor.runs() + 1                                      //@ C18 #init-synchronizes-once-on-the-start-time
                 && sim.executor.run_at().last().1 == start_time.t,                                      //@ C18 #init-synchronizes-before-the-init-code-runs
+            // C16: the models' tasks (init, then the receive loop) run during SimInit::init: the executor is entered exactly once
+            res matches Ok((sim, _s)) ==> sim.executor.run_at().len() == self.executor.run_at().len() + 1    //@ C16 #init-code-runs-during-SimInit-init
+                && sim.executor.spawned() == self.executor.spawned(),                                         //@ C16 #init-code-runs-during-SimInit-init
             // C01: the init code runs at the start time (what it reads, and what it schedules relative to, is the start time)
             res matches Ok((sim, _s)) ==> sim.executor.run_at().last().0 == start_time.t,               //@ C01 #init-code-runs-at-the-start-time
             // the initial state satisfies the invariant of every public operation, component by component
